@@ -191,7 +191,9 @@ def _enum_boundary(tier):
             yield {"sub": "a", "name": b["name"], "tree": b["tree"]}
             for seq in ([], [1] * 40, [2] * 40, [0, 1, 2, 1, 0, 2] * 8):
                 yield {"sub": "b", "name": b["name"], "tree": b["tree"], "choices": seq, "deflate": False}
-            if not big:
+            if not big or b["name"] in ("content_1048576_top_pat2", "content_1048577_top_pat2", "content_1048575_nested_then_sibling",
+                                        "content_1048576_deep", "attr_value_1048577"):
+                # (compressed frames also for a few trees whose inflated size is at and just above 1 MiB)
                 yield {"sub": "b", "name": b["name"], "tree": b["tree"], "choices": [1, 0, 2, 1], "deflate": True}
     return factory
 
